@@ -5,7 +5,8 @@ import Stackage.Spec.Unwrap
 /-!
 # Driver entry for stream `revealtrees` (C20); not part of any proof
 
-payload: the receiver tree as a value literal.
+payload: `K n <cfg> | e1 ; e2 ; …` — the receiver's configuration and its elements as value literals
+(`-` for none), separated by ` ; ` so that the orchestrator's shrinker can drop elements.
 
 * M line: `L <leaves after> ; NF <normal form after> ; KP <kept nodes after> ; D <depth after ≤ depth before> ;
   R <reachable before after> ; T <tree after, from the heap model> ; X <ids of the nodes whose mutex was
@@ -64,7 +65,16 @@ def revealFuel : Nat := 1000000
 
 /-- payload → (model line, spec line, tags) -/
 def runReveal (payload : String) : String × String × String :=
-  let (t, _) := parseVal (words payload)
+  let t : Val := match payload.splitOn " | " with
+    | [hd, els] =>
+      (match words hd with
+       | ["K", f, cfg] =>
+         let xs := (els.splitOn " ; ").filterMap (fun e =>
+           let ws := words e
+           if ws.isEmpty || ws == ["-"] then none else some (parseVal ws).1)
+         .stk (parseForm f) (parseCfg cfg) xs
+       | _ => .nil)
+    | _ => .nil
   match t with
   | .stk _ _ _ =>
     let (h, H) := ofTree t
